@@ -31,21 +31,22 @@ def enum_dialects():
 
 def check_enum(j, ds):
     """returns (totality failure or None, drift bool)"""
-    from gffutils import parser
     s = dec(j["s"])
     drift = False
     try:
-        q, d = parser._split_keyvals(s)
+        q, d = A.split_keyvals(s)
         a = A.proj_attrs(q)
         if a is None:
             return "types", False
         if {"attrs": a, "d": A.proj_dialect(d)} != j["inf"]:
             drift = True
+    except A.NoEntrance:
+        return None, False
     except Exception as e:  # noqa
         return "raised:" + type(e).__name__, False
     for w, dd in zip(("w1", "w2", "w3"), ds):
         try:
-            q, _ = parser._split_keyvals(s, dialect=copy.deepcopy(dd))
+            q, _ = A.split_keyvals(s, dialect=copy.deepcopy(dd))
             a = A.proj_attrs(q)
             if a is None:
                 return "types", False
